@@ -16,6 +16,7 @@ import (
 	"strings"
 	"time"
 
+	"github.com/prometheus/client_golang/prometheus"
 	"github.com/relex/gotils/logger"
 	"github.com/relex/gotils/promexporter/promreg"
 	"github.com/relex/slog-agent/base"
@@ -47,7 +48,7 @@ orchestration:
   type: byKeySet
   keys: [app]
   tag: t.$app
-metricKeys: [host]
+metricKeys: METRICKEYS
 transformations:
   - type: drop
     match:
@@ -78,27 +79,32 @@ outputBufferPairs:
 `
 
 type op struct {
-	kind string // "line" or "flush"
-	app  string
-	drop bool
+	kind   string // "line" or "flush"
+	app    string
+	drop   bool
+	host   string // "" = host1
+	source string // "" = src
 }
 
 type params struct {
-	name      string
-	prop      string
-	conns     [][]op // per connection, generation 0
-	gens      int    // generations (the last one is healthy and drained)
-	chunkRecs int
-	memCap    int
-	opt       fakeup.Options
-	flushAlt  bool // a Flush() after each line is an explorer choice
-	advances  int
-	delayB    bool
+	name       string
+	prop       string
+	conns      [][]op // per connection, generation 0
+	gens       int    // generations (the last one is healthy and drained)
+	chunkRecs  int
+	memCap     int
+	opt        fakeup.Options
+	metricKeys string // YAML list, default [host]
+	flushAlt   bool   // a Flush() after each line is an explorer choice
+	advances   int
+	delayB     bool
 }
 
 type lineRec struct {
 	conn, seq int
 	app       string
+	host      string
+	source    string
 	stamp     string
 	drop      bool
 	bytes     int
@@ -145,6 +151,7 @@ func (w *world) violate(key, format string, args ...any) {
 
 var logs = &hutil.LogCapture{}
 var flagLogs = flag.Bool("logs", false, "echo agent logs")
+var flagDump = flag.Bool("dumpmetrics", false, "print non-zero metrics at every stop (C19)")
 
 func (w *world) stateHash() uint64 {
 	h := uint64(1469598103934665603)
@@ -293,7 +300,12 @@ func makeRun(p params) explore.RunFunc {
 		w.root = hutil.ScratchRoot("agentmc")
 		defer os.RemoveAll(w.root)
 		w.cfgPath = filepath.Join(w.root, "config.yml")
-		os.WriteFile(w.cfgPath, []byte(strings.ReplaceAll(configTemplate, "ROOT", filepath.Join(w.root, "q"))), 0o644)
+		mk := p.metricKeys
+		if mk == "" {
+			mk = "[host]"
+		}
+		cfgText := strings.ReplaceAll(strings.ReplaceAll(configTemplate, "ROOT", filepath.Join(w.root, "q")), "METRICKEYS", mk)
+		os.WriteFile(w.cfgPath, []byte(cfgText), 0o644)
 		fsc := 0
 		if p.delayB {
 			fsc = 1
@@ -322,8 +334,8 @@ func firstLines(s string, n int) string {
 	return strings.Join(l, " / ")
 }
 
-func syslogLine(app, source, stamp string) string {
-	return fmt.Sprintf("<13>1 2020-01-02T03:04:05.678Z host1 %s 77 %s - %s payload of %s", app, source, stamp, stamp)
+func syslogLine(host, app, source, stamp string) string {
+	return fmt.Sprintf("<13>1 2020-01-02T03:04:05.678Z %s %s 77 %s - %s payload of %s", host, app, source, stamp, stamp)
 }
 
 func drive(w *world) explore.Verdict {
@@ -369,12 +381,19 @@ func drive(w *world) explore.Verdict {
 						case "line":
 							seqn++
 							source := "src"
+							if o.source != "" {
+								source = o.source
+							}
 							if o.drop {
 								source = "dropme"
 							}
+							host := "host1"
+							if o.host != "" {
+								host = o.host
+							}
 							stamp := fmt.Sprintf("c%dr%d", ci, seqn)
-							line := syslogLine(o.app, source, stamp)
-							lr := &lineRec{conn: ci, seq: seqn, app: o.app, stamp: stamp, drop: o.drop, bytes: len(line)}
+							line := syslogLine(host, o.app, source, stamp)
+							lr := &lineRec{conn: ci, seq: seqn, app: o.app, host: host, source: source, stamp: stamp, drop: o.drop, bytes: len(line)}
 							w.lines = append(w.lines, lr)
 							vsched.Note("conn%d line %s app=%s drop=%v", ci, stamp, o.app, o.drop)
 							sink.Accept([]byte(line))
@@ -531,12 +550,29 @@ func (w *world) checkOrder() {
 // checkMetrics is C19: the balance equations of DESIGN.md Appendix A.5 at quiescence after the stop of generation g.
 func (w *world) checkMetrics(g int, acked map[string]bool, files int) {
 	loader := w.loaders[g]
-	m := hutil.Metrics(loader.GetMetricGatherer())
+	var m map[string]float64
+	if gs, ok := loader.GetMetricGatherer().(prometheus.Gatherers); ok && len(gs) > 0 {
+		m = hutil.Metrics(gs[len(gs)-1]) // the pipeline metric factory (the default registry is not needed)
+	} else {
+		m = hutil.Metrics(loader.GetMetricGatherer())
+	}
 	for k, v := range hutil.Metrics(w.inputMFs[g]) {
 		m[k] = v
 	}
 	for k, v := range hutil.Metrics(w.mfs[g]) {
 		m[k] = v
+	}
+	if *flagDump {
+		keys := make([]string, 0, len(m))
+		for k := range m {
+			if strings.HasPrefix(k, "g") && m[k] != 0 {
+				keys = append(keys, k)
+			}
+		}
+		sort.Strings(keys)
+		for _, k := range keys {
+			fmt.Fprintf(os.Stderr, "METRIC gen%d %s = %v\n", g, k, m[k])
+		}
 	}
 	pre := fmt.Sprintf("g%d_", g)
 	inPre := fmt.Sprintf("g%din_input_", g)
@@ -600,6 +636,36 @@ func (w *world) checkMetrics(g int, acked map[string]bool, files int) {
 		got := int(hutil.Sum(m, pre+"process_passed_records_total", frag) + hutil.Sum(m, pre+"process_dropped_records_total", frag))
 		if got != byApp[a] {
 			w.violate("metrics:key-attribution", "generation %d: counters labelled key_app=%s account for %d records, %d records of that key set were received", g, a, got, byApp[a])
+		}
+	}
+	// attribution by the metric key fields (host, and source when configured)
+	type mk struct{ app, host, source string }
+	byMK := map[mk]int{}
+	withSource := strings.Contains(w.p.metricKeys, "source")
+	if g == 0 {
+		for _, l := range w.lines {
+			if l.accepted {
+				k := mk{app: l.app, host: l.host}
+				if withSource {
+					k.source = l.source
+				}
+				byMK[k]++
+			}
+		}
+	}
+	mks := make([]mk, 0, len(byMK))
+	for k := range byMK {
+		mks = append(mks, k)
+	}
+	sort.Slice(mks, func(i, j int) bool { return fmt.Sprint(mks[i]) < fmt.Sprint(mks[j]) })
+	for _, k := range mks {
+		frags := []string{fmt.Sprintf(`key_app=%q`, k.app), fmt.Sprintf(`key_host=%q`, k.host)}
+		if withSource {
+			frags = append(frags, fmt.Sprintf(`key_source=%q`, k.source))
+		}
+		got := int(hutil.Sum(m, pre+"process_passed_records_total", frags...) + hutil.Sum(m, pre+"process_dropped_records_total", frags...))
+		if got != byMK[k] {
+			w.violate("metrics:metric-key-attribution", "generation %d: counters labelled %v account for %d records, %d records with these label values were received", g, frags, got, byMK[k])
 		}
 	}
 	// buffer level, summed over pipelines: accepted + recovered = consumed + leftover + dropped + pending
@@ -668,6 +734,12 @@ func scenarios(prop string) []*explore.Scenario {
 	// three generations
 	c := params{name: "1conn-3rec/3gens", conns: [][]op{{L("appA"), L("appA"), L("appB")}}, gens: 3, chunkRecs: 1, memCap: 2, opt: full, flushAlt: false, advances: 1}
 	add(c, 1, 2)
+	if prop == "C19" {
+		// two metric-key tuples whose plain concatenations coincide: ('ab','c') and ('a','bc')
+		M := func(host, source string) op { return op{kind: "line", app: "appA", host: host, source: source} }
+		e := params{name: "metric-key-tuples", conns: [][]op{{M("ab", "c"), M("a", "bc"), M("ab", "c")}}, gens: 2, chunkRecs: 1, memCap: 2, opt: full, metricKeys: "[host, source]", advances: 1}
+		add(e, 0, 1)
+	}
 	if prop == "C05" {
 		d := params{name: "2conn-2key-2rec/order", conns: [][]op{{L("appA"), L("appB"), L("appA"), L("appB")}, {L("appA"), L("appB"), L("appA"), L("appB")}}, gens: 2, chunkRecs: 2, memCap: 0, opt: full, flushAlt: true, advances: 1}
 		add(d, 1, 2)
